@@ -501,6 +501,74 @@ LATTICES = [([5, 4, 3], [2, 2, 2]), ([3, 2, 2], [4, 4, 4]),
             ([7, 5, 1], [3, 2, 1])]
 
 
+# ---- one directory, handles opened with different storage options ---------
+REOPEN_OPTS = [{"flat": False, "gzip": True}, {"flat": False, "gzip": False},
+               {"flat": True, "gzip": True}, {"flat": True, "gzip": False}]
+
+
+def reopen_cases():
+    out = []
+    for dtype, enc in (("uint8", {"encoding": "raw"}),
+                       ("uint32", {"encoding": "compressed_segmentation",
+                                   "compressed_segmentation_block_size":
+                                   [2, 2, 2]}),
+                       ("uint8", {"encoding": "jpeg"})):
+        for a in range(4):
+            for b in range(4):
+                if a != b and REOPEN_OPTS[a]["flat"] == REOPEN_OPTS[b]["flat"]:
+                    out.append({"kind": "reopen", "dtype": dtype, "enc": enc,
+                                "first": a, "second": b})
+    return out
+
+
+def _eval_reopen(col, case):
+    """a chunk written through a handle with one compression setting, then
+    written again (other content) through a handle opened on the same
+    directory with the other setting: both handles and a fresh one must read
+    the array written last"""
+    from neuroglancer_scripts import accessor, precomputed_io
+    cfg = {"dtype": case["dtype"], "channels": 1, "enc": case["enc"],
+           "acc": dict(REOPEN_OPTS[case["first"]], cls="file"),
+           "two_scales": False}
+    d = sandbox.fresh_dir("c03r")
+    try:
+        with open(os.path.join(d, "info"), "w") as f:
+            json.dump(make_info(cfg), f)
+        cc = (0, 2, 0, 2, 0, 2)
+        hs = []
+        for k in ("first", "second"):
+            acc = accessor.get_accessor_for_url(d, REOPEN_OPTS[case[k]])
+            hs.append(precomputed_io.get_IO_for_existing_dataset(acc))
+        a1, w1 = content("ramp", cfg, cc)
+        a2, w2 = content("checker-be", cfg, cc)
+        ok = True
+        try:
+            hs[0].write_chunk(a1, "s0", cc)
+            hs[1].write_chunk(a2, "s0", cc)
+        except Exception as exc:
+            col.ev(1, 1, "reopen-bad")
+            col.violation("C03/reopen/write-exception/"
+                          + type(exc).__name__, case, "written",
+                          repr(exc)[:200])
+            return
+        fresh = precomputed_io.get_IO_for_existing_dataset(
+            accessor.get_accessor_for_url(d, REOPEN_OPTS[case["first"]]))
+        for name, h in (("second-handle", hs[1]), ("first-handle", hs[0]),
+                        ("fresh-handle", fresh)):
+            try:
+                why = compare(cfg, h.read_chunk("s0", cc), w2)
+            except Exception as exc:
+                why = repr(exc)[:160]
+            if why:
+                ok = False
+                col.violation("C03/reopen/read-differs-from-the-last-write/"
+                              + name, dict(case, handle=name),
+                              "the array written last", why)
+        col.ev(1, 1, "reopen-ok" if ok else "reopen-bad")
+    finally:
+        sandbox.rm(d)
+
+
 def units(tier):
     depth = 3 if tier == "quick" else 4
     u = [{"kind": "config", "cfg": c, "depth": depth} for c in configs(tier)]
@@ -512,6 +580,7 @@ def units(tier):
         u.append({"kind": "reject", "size": size, "chunk": cs})
     for size, css in LATTICES2:
         u.append({"kind": "lattice2", "size": size, "chunks": css})
+    u.append({"kind": "reopen"})
     return u
 
 
@@ -525,7 +594,11 @@ def space(tier):
 
 def run_unit(u):
     col = Collector()
-    if u["kind"] == "config":
+    if u["kind"] == "reopen":
+        for c in reopen_cases():
+            _eval_reopen(col, c)
+        col.sample(reopen_cases()[0])
+    elif u["kind"] == "config":
         explore(u["cfg"], u["depth"], col)
         col.sample({"cfg": u["cfg"], "history": [
             [0, [4, 5, 2, 4, 2, 3], "checker-be"]]})
@@ -545,6 +618,11 @@ def run_unit(u):
 
 def replay(case):
     col = Collector()
+    if case.get("kind") == "reopen":
+        c = {k: v for k, v in case.items() if k != "handle"}
+        _eval_reopen(col, c)
+        return [r for r in col.records()
+                if r["case"].get("handle") == case.get("handle")]
     if case.get("kind") == "lattice2":
         lattice2_unit(col, case["size"], case["chunks"])
         return [r for r in col.records()
